@@ -84,9 +84,21 @@ pub enum FaultMode {
 
 #[derive(Debug, Clone, Copy)]
 pub struct Fault {
-    /// index (0-based) among *all* tracked calls counted since the plan was armed
+    /// index (0-based) among all tracked calls counted since the plan was armed - or, with `kind`
+    /// set, among the calls of that kind
     pub call_index: u64,
     pub mode: FaultMode,
+    pub kind: Option<Kind>,
+}
+
+impl Fault {
+    pub fn at(call_index: u64, mode: FaultMode) -> Fault {
+        Fault { call_index, mode, kind: None }
+    }
+    /// the n-th (0-based) call of `kind` fails with `errno`
+    pub fn nth(kind: Kind, n: u64, errno: i32) -> Fault {
+        Fault { call_index: n, mode: FaultMode::Errno(errno), kind: Some(kind) }
+    }
 }
 
 /// Callback for scheduling points: called *before* the call is executed.
@@ -223,11 +235,9 @@ fn pre(kind: Kind, fd: c_int, arg: i64) -> Decision {
         p.calls += 1;
         p.call_kinds.push(kind);
         if let Some(f) = p.fault {
-            // call_index >= 1000 selects the (call_index - 1000)-th fsync instead of an absolute position
-            let hit = if f.call_index >= 1000 {
-                kind == Kind::Fsync && p.call_kinds.iter().filter(|k| **k == Kind::Fsync).count() as u64 == f.call_index - 1000 + 1
-            } else {
-                f.call_index == idx
+            let hit = match f.kind {
+                Some(k) => kind == k && p.call_kinds.iter().filter(|x| **x == k).count() as u64 == f.call_index + 1,
+                None => f.call_index == idx,
             };
             if hit && !p.fault_fired {
                 p.fault_fired = true;
